@@ -49,6 +49,11 @@ def run(tier, seed):
         ri.append((sp, dict(o, flags=[False, False])))
     ri += stepcheck.restarted_items(its[:: (9 if tier == "quick" else 4)], ks=(1, 2), flags=(True, False))
     ri += stepcheck.resumed_edit_items(("worker-absence-append-3",), ks=(1, 2, 3))
+    # a checkpoint written at step k and read back - into a new project, and into the same project object - before the run goes on
+    for sp, o in its[:: (11 if tier == "quick" else 4)]:
+        for k in (1, 2):
+            for how in (True, "same"):
+                ri.append((sp, dict(o, resume_from=k, resume_via_json=how)))
     col.merge(stepcheck.explore(ri, MONS, 0, 0, seed=seed))
     lit = [(sp, {"rule": "TSLACK", "max_time": 20}) for sp in F.unsorted_absence_specs() + F.same_name_task_specs() + F.double_link_specs() + F.three_level_product_specs()]
     col.merge(stepcheck.explore(lit, MONS, 0, 0, seed=seed))
